@@ -12,6 +12,8 @@
   c04.dot     <unit0> <unit1>                   `unyt_array.dot`
   c04.pow     <unit> p                          `unyt_array.__pow__`
   c04.outfix  <old unit of out> mul             the `multiply(out, mul, out=out)` fix-up: terminates or recurses
+  c04.bufcheck                                  symbolic check of the regenerated buffer program (+ first failing flags/placement)
+  c04.bufrun  ufunc k0 <unit0> z0 k1 <unit1> z1 hasOut l0 l1 lo a0 a1 a2   the buffer program at Float on the caller cells
   c04.prog    n  <unit x>*n  tok…               a whole expression program (postfix: L<i>, B:<ufunc>,
                                                 U:<ufunc>, P:<p/q>) through `Prog.evalModel`
 -/
@@ -19,6 +21,7 @@ import UnytModel.DriverBase
 import UnytModel.UfuncValue
 import UnytModel.UfuncProgram
 import UnytModel.Ref.C04Classes
+import UnytModel.Generated.C04Buffers
 
 namespace Unyt
 open Unyt.UV
@@ -197,6 +200,28 @@ def stepC04 (st : DriverState) (fields : List String) : Option (DriverState × S
       | .ok none => some (st, "ok\trecursion")
       | .error e => some (st, s!"err\t{e.str}")
     | _, _ => some (st, "bad-op")
+  | ["c04.bufcheck"] =>
+    let ok := Buf.checkAll Generated.C04Buf.binaryStmts
+    let ff := match Buf.firstFailure Generated.C04Buf.binaryStmts with
+      | some (fl, l0, l1, lo) => s!"{fl.conv}\t{fl.tdelta}\t{fl.post}\t{fl.hasOut}\t{fl.mulNe1}\t{fl.free0}\t{fl.free1}\t{l0}\t{l1}\t{lo}"
+      | none => "-"
+    some (st, s!"ok\t{ok}\t{Generated.C04Buf.binaryStmts.length}\t{ff}")
+  | ["c04.bufrun", f, k0, s0, o0, d0, c0, f0, z0, k1, s1, o1, d1, c1, f1, z1, hasOut, l0, l1, lo, a0, a1, a2] =>
+    match parseOpnd k0 s0 o0 d0 c0 f0 z0, parseOpnd k1 s1 o1 d1 c1 f1 z1, kernelFloat2 f,
+          l0.toNat?, l1.toNat?, lo.toNat?, fb a0, fb a1, fb a2 with
+    | some a, some b, some F, some l0, some l1, some lo, some a0, some a1, some a2 =>
+      match dispatchBinary UnitV.eqFloat pre t f a b none with
+      | .error e => some (st, s!"err\t{e.str}")
+      | .ok o =>
+        -- the blocks that run: read off the model's own outcome of the unit bookkeeping
+        let fl : Buf.Flags := ⟨o.conv != 1, false, o.post != 1, hasOut == "1", o.mul != 1, false, false⟩
+        let coef : Buf.Coef → Float := fun c => match c with
+          | .conv => o.conv | .ratio0 => 1 | .post => o.post | .mul => o.mul
+        let s := Buf.run (Buf.mulAlg F coef) fl lo Generated.C04Buf.binaryStmts (Buf.initSt a0 a1 a2 l0 l1)
+        let cell (i : Nat) : String := match s.mem[i]? with | some v => bitsStr v | none => "-"
+        let ret := match s.read .ret with | some v => bitsStr v | none => "-"
+        some (st, s!"ok\t{s.bad}\t{ret}\t{cell 0}\t{cell 1}\t{cell 2}")
+    | _, _, _, _, _, _, _, _, _ => some (st, "bad-op")
   | "c04.prog" :: n :: rest =>
     match n.toNat? with
     | none => some (st, "bad-op")
